@@ -40,8 +40,10 @@ type Prog struct {
 	needAppendAxiom map[string]bool
 	scc     map[string]int
 	rawOrder []string
+	recSpec map[string]bool
 	fnTable *Term
 	fnTableNotes []string
+	copyAxioms map[string]*Sort
 	sortAxioms map[string]*Sort
 	permAxioms map[string]*Sort
 }
